@@ -677,10 +677,22 @@ theorem pluck_keeps_a_stale_sort :
 /-- `all` of gen_query.rs: the filters of one clause joined into ONE condition, `e1 AND (e2 AND (.. AND en))` -/
 def allAnd : List Model.Rel.Expr → Option Model.Rel.Expr
   | [] => none
-  | [e] => some e
   | e :: rest => match allAnd rest with
     | some c => some (.bin .and e c)
     | none => some e
+
+theorem holds_and (a b : Model.Rel.Expr) (r : Model.Rel.Row) :
+    Lemmas.RelBlock.holds (.bin .and a b) r = (Lemmas.RelBlock.holds a r && Lemmas.RelBlock.holds b r) := by
+  simp only [Lemmas.RelBlock.holds, Model.Rel.Expr.eval, Model.Rel.evalBin]
+  cases ha : (a.eval r).truth with
+  | none =>
+    cases hb : (b.eval r).truth with
+    | none => simp [Model.Rel.and3, Model.Rel.ofTruth, Model.Rel.Value.truth]
+    | some y => cases y <;> simp [Model.Rel.and3, Model.Rel.ofTruth, Model.Rel.Value.truth]
+  | some x =>
+    cases hb : (b.eval r).truth with
+    | none => cases x <;> simp [Model.Rel.and3, Model.Rel.ofTruth, Model.Rel.Value.truth]
+    | some y => cases x <;> cases y <;> simp [Model.Rel.and3, Model.Rel.ofTruth, Model.Rel.Value.truth]
 
 /-- a row passes the joined condition iff it passes every filter (three-valued: NULL does not pass), for any number of
 filters - the WHERE / HAVING clause built by `filter_of_conditions` means the filters applied one after the other -/
@@ -691,26 +703,22 @@ theorem joined_condition_means_all_filters (es : List Model.Rel.Expr) (c : Model
   | cons e rest ih =>
     cases hr : allAnd rest with
     | none =>
-      have : rest = [] := by
+      have hnil : rest = [] := by
         cases rest with
         | nil => rfl
-        | cons x xs => simp only [allAnd] at hr; split at hr <;> simp at hr
-      subst this
+        | cons x xs =>
+          simp only [allAnd] at hr
+          cases hx : allAnd xs <;> simp [hx] at hr
+      subst hnil
       simp only [allAnd, Option.some.injEq] at h
       subst h
       simp [Lemmas.RelBlock.allHold]
     | some c' =>
-      have hc : c = .bin .and e c' := by
-        cases rest with
-        | nil => simp [allAnd] at hr
-        | cons x xs => simp only [allAnd, hr, Option.some.injEq] at h; exact h.symm
-      subst hc
+      simp only [allAnd, hr, Option.some.injEq] at h
+      subst h
       have := ih c' hr
-      simp only [Lemmas.RelBlock.allHold, List.all_cons] at this ⊢
-      rw [← this]
-      simp only [Lemmas.RelBlock.holds, Model.Rel.Expr.eval, Model.Rel.evalBin]
-      cases (e.eval r).truth <;> cases (c'.eval r).truth <;> simp [Model.Rel.and3, Model.Rel.ofTruth, Model.Rel.Value.truth] <;>
-        (rename_i a b; cases a <;> cases b <;> simp [Model.Rel.and3, Model.Rel.ofTruth, Model.Rel.Value.truth])
+      rw [holds_and, this]
+      simp [Lemmas.RelBlock.allHold]
 
 /-- the kind of clause a transform of the reference semantics contributes -/
 def skel : Model.Rel.Tr → Model.SelectPipe.Tr
